@@ -313,6 +313,49 @@ func runC01(r *vk.Run) {
 	})
 	r.Require("daemon_cases_with_unterminated_lines", 200)
 
+	// numbers with more digits than a float64 holds (64-bit ids, nanosecond timestamps): a label filter
+	// compares the digits that are written in the line, in every form of the json stage
+	r.Phase("bigints", r.N(60, 3000), func(c *vk.Case) {
+		rng := c.Rng
+		ids := []string{"9007199254740993", "9007199254740992", "9007199254740994", "18014398509481985", "1234567890123456789", "1700000000123456789", "42"}
+		var recs []Rec
+		n := rng.Range(4, 12)
+		owner := map[int64]string{}
+		for i := 0; i < n; i++ {
+			id := vk.Pick(rng, ids)
+			ts := logT0 + int64(i+1)*1e9
+			recs = append(recs, Rec{TS: ts, Line: fmt.Sprintf(`{"req":{"id":%s},"id":%s,"seq":%d}`, id, id, i), Labels: map[string]string{"app": "x"}})
+			owner[ts] = id
+		}
+		want := vk.Pick(rng, ids)
+		stage := vk.Pick(rng, []string{`| json rid="req.id"`, `| json rid="id"`, `| json id | label_format rid=id`, `| json | label_format rid=id`, `| json rid="req.id", seq="seq"`})
+		for _, op := range []string{"=", "!="} {
+			text := `{app="x"} ` + stage + ` | rid` + op + quoteLogQL(want)
+			res, err := evalQuery(&MemQuerier{Recs: recs, ErrAfter: -1}, text, logRangeParams(n))
+			c.Eval(1)
+			det := map[string]any{"query": text, "records": recs, "result": res}
+			if err != nil {
+				c.Fail("", text+": "+err.Error(), det)
+				return
+			}
+			got := map[int64]bool{}
+			for _, st := range res.Streams {
+				for _, e := range st.Entries {
+					got[e.TS] = true
+				}
+			}
+			for ts, id := range owner {
+				if exp := (id == want) == (op == "="); got[ts] != exp {
+					c.Fail("", fmt.Sprintf("%s: the record whose id is %s returned=%v", text, id, got[ts]), det)
+					return
+				}
+				c.Count("big_integer_comparisons", 1)
+			}
+		}
+		c.Nontrivial(fmt.Sprintf("bigints|%d", c.Idx))
+	})
+	r.Require("big_integer_comparisons", 500)
+
 	// many stages: a parser followed by 11..18 label filters, one per stage, and a line filter at the very end
 	// returns what the same conditions return when the label filters are written as ONE stage joined by
 	// `and` and the line filter stands first (a line filter does not care where it stands among stages that
